@@ -936,10 +936,11 @@ def s_pow10(x):
     hit = c.fn_cache.get(key)
     if hit is not None:
         return hit[1]
-    # 10**log10(a) == a, closed under sums: 10**(log10 a + log10 b) = a*b
+    # 10**log10(a) == a, closed under sums: 10**(a + b) = 10**a * 10**b  (numerals are evaluated)
     res = None
     if x.k is None:
-        parts = x.t.children() if (z3.is_app(x.t) and x.t.decl().kind() == z3.Z3_OP_ADD) else [x.t]
+        is_add = z3.is_app(x.t) and x.t.decl().kind() == z3.Z3_OP_ADD
+        parts = x.t.children() if is_add else [x.t]
         prod = None
         for p in parts:
             arg = None
@@ -951,6 +952,13 @@ def s_pow10(x):
                 hit = c.log_const_inverse.get(p.get_id())
                 if hit is not None:
                     arg = hit[1]
+            if arg is None and is_add and z3.is_rational_value(p):
+                f = float(p.numerator_as_long()) / float(p.denominator_as_long())
+                arg = rv(float(np.float64(10.) ** np.float64(f)))
+            if arg is None and is_add:
+                hit = c.fn_cache.get(('pow10', p.get_id()))      # only an already existing power of this summand
+                if hit is not None and isinstance(hit[1], SymReal) and hit[1].k is None:
+                    arg = hit[1].t
             if arg is None:
                 prod = None
                 break
@@ -1471,6 +1479,9 @@ class Explorer:
         self.work = []
         self.query_log = []
         self.deadline = None
+        import os as _os
+        self.xcheck_budget = int(_os.environ.get('VERIF_XCHECK', '0') or 0)
+        self.xcheck = {'agree_unsat': 0, 'cvc5_unknown': 0, 'DISAGREE_sat': 0, 'skipped': 0}
 
     def record_query(self, name, res, dt, trivial=False):
         self.query_log.append((name, res, round(dt, 4)))
@@ -1487,6 +1498,7 @@ class Explorer:
         dt = time.time() - t0
         self.stats.solver_time += dt
         if r == z3.unsat:
+            self._cross_check(s)
             return 'unsat', None, dt
         if r == z3.sat:
             return 'sat', s.model(), dt
@@ -1508,6 +1520,36 @@ class Explorer:
             except z3.Z3Exception:
                 pass
         return 'unknown', None, dt
+
+    def _cross_check(self, solver):
+        """Thorough tier: re-decide a sample of the unsat queries with cvc5 (a second, independent solver)."""
+        budget = self.xcheck_budget
+        if budget <= 0:
+            return
+        self.xcheck_budget -= 1
+        try:
+            import cvc5
+            text = "(set-logic ALL)\n" + solver.to_smt2()
+            if len(text) > 400000:
+                self.xcheck['skipped'] += 1
+                return
+            slv = cvc5.Solver()
+            slv.setOption('tlimit-per', '8000')
+            parser = cvc5.InputParser(slv)
+            parser.setStringInput(cvc5.InputLanguage.SMT_LIB_2_6, text, "q")
+            sm = parser.getSymbolManager()
+            res = 'unknown'
+            while True:
+                cmd = parser.nextCommand()
+                if cmd.isNull():
+                    break
+                out = str(cmd.invoke(slv, sm)).strip()
+                if out in ('sat', 'unsat', 'unknown'):
+                    res = out
+            key = {'unsat': 'agree_unsat', 'sat': 'DISAGREE_sat', 'unknown': 'cvc5_unknown'}[res]
+            self.xcheck[key] += 1
+        except Exception as e:  # noqa: BLE001
+            self.xcheck['error'] = self.xcheck.get('error', 0) + 1
 
     def run(self, fn):
         """Yield (ctx, outcome) for every feasible path of fn(ctx).
